@@ -28,10 +28,13 @@ fn decode(c: &Case) -> Result<(Option<(f64, f64)>, f64, String), Failure> {
     let i = c.odd as u32;
     let e = encode(c.lat, c.lon, i, c.surface);
     let (frame, got) = if c.surface {
-        let (f, m) = surface_via_decoder(0x3c6444, 7, 10, i, e.yz, e.xz).map_err(|x| Failure::new("c05:frame-rejected", x, rep(c, "inrange")))?;
+        let v = h64(&(c.lat.to_bits(), c.lon.to_bits(), c.odd));
+        let (f, m) = surface_via_decoder(0x100000 + (v >> 44) as u32, 5 + (v & 3) as u8, ((v >> 2) & 127) as u8, i, e.yz, e.xz).map_err(|x| Failure::new("c05:frame-rejected", x, rep(c, "inrange")))?;
         (f, catch(|| surface_position_with_reference(&m, c.ref_lat, c.ref_lon)))
     } else {
-        let (f, m) = airborne_via_decoder(0x3c6444, 12, 0xc38, i, e.yz, e.xz).map_err(|x| Failure::new("c05:frame-rejected", x, rep(c, "inrange")))?;
+        let v = h64(&(c.lat.to_bits(), c.lon.to_bits(), c.odd));
+        const TCS: [u8; 13] = [9, 10, 11, 12, 13, 14, 15, 16, 17, 18, 20, 21, 22];
+        let (f, m) = airborne_via_decoder(0x100000 + (v >> 44) as u32, TCS[(v % 13) as usize], ((v >> 8) & 0xfff) as u16, i, e.yz, e.xz).map_err(|x| Failure::new("c05:frame-rejected", x, rep(c, "inrange")))?;
         (f, catch(|| airborne_position_with_reference(&m, c.ref_lat, c.ref_lon)))
     };
     let got = got.map_err(|p| Failure::new("c05:panic", format!("{p} frame {}", hex::encode(&frame)), rep(c, "any")))?;
@@ -133,6 +136,52 @@ pub fn check_any(ctx: &Ctx, c: &Case) -> Check {
     }
 }
 
+/// A short history on one thread: related decodes first (the same report against a far reference; a report from a
+/// point a whole number of latitude zones away, which carries the same latitude count, against its own near
+/// reference), then the case itself, then everything in reverse order. Each decode is judged by its own oracle: what
+/// a report decodes to may not depend on what was decoded before.
+pub fn check_sequence(ctx: &Ctx, cases: &[(Case, bool)]) -> Check {
+    let rep_seq = json!({"kind": "sequence", "cases": cases.iter().map(|(c, any)| rep(c, if *any { "any" } else { "inrange" })).collect::<Vec<_>>()});
+    let order: Vec<usize> = (0..cases.len()).chain((0..cases.len()).rev()).collect();
+    for (n, &i) in order.iter().enumerate() {
+        let (c, any) = &cases[i];
+        let r = if *any { check_any(ctx, c) } else { check_inrange(ctx, c) };
+        if let Err(mut e) = r {
+            if n > 0 {
+                e.signature = format!("{}:after-other-decodes", e.signature);
+                e.detail = format!("{} (decode number {} of the sequence)", e.detail, n + 1);
+                e.replay = rep_seq;
+            }
+            return Err(e);
+        }
+    }
+    Ok(())
+}
+
+fn sequence_case() -> impl Strategy<Value = Vec<(Case, bool)>> {
+    (inrange_case(), weird_f64(), weird_f64(), -3i32..=3, -3i32..=3, 0.0f64..360.0, 0.0f64..0.9).prop_map(|(c, a, b, k, m, bearing, r)| {
+        let i = c.odd as u32;
+        let span = if c.surface { 90.0 } else { 360.0 };
+        let dlat = span / (60.0 - i as f64);
+        let mut v = vec![];
+        // the same report against an arbitrary reference
+        v.push((Case { ref_lat: a, ref_lon: b, ..c }, true));
+        // a report k latitude zones and a few longitude zones away (same latitude count), in range of its own reference
+        let k = if k == 0 { 1 } else { k };
+        let lat2 = c.lat + k as f64 * dlat;
+        if lat2.abs() < 89.0 {
+            let lon2 = vcore::cprenc::wrap180(c.lon + m as f64 * 7.3);
+            let range = if c.surface { 45.0 } else { 180.0 } * NM;
+            let (rl, ro) = destination(lat2, lon2, bearing, r * 0.95 * range);
+            v.push((Case { lat: lat2, lon: lon2, ref_lat: rl, ref_lon: ro, ..c }, false));
+        }
+        // the other parity / format of the same point
+        v.push((Case { odd: !c.odd, ..c }, false));
+        v.push((c, false));
+        v
+    })
+}
+
 fn inrange_case() -> impl Strategy<Value = Case> {
     (point(), any::<bool>(), any::<bool>(), 0.0f64..360.0, 0.0f64..1.0, 0u32..8).prop_map(|(p, surface, odd, bearing, r, edge)| {
         let p: Pt = p;
@@ -185,10 +234,11 @@ fn any_case() -> impl Strategy<Value = Case> {
 }
 
 pub fn run(ctx: &Ctx) {
-    ctx.set_rule("in-range family: truth from the C04 strata, airborne/surface x even/odd, reference = truth moved along a random bearing by r*0.95*range (r uniform, r = 1 for 1/8), additionally within 0.95 half-zones per coordinate (else excluded, counted); oracle: position within 10 m, longitude modulo 360. any-reference family: arbitrary finite references (huge, denormal, zone edges, poles, antimeridian); oracle: absent, or latitude in [-90,90] and within half a zone of the reference in both coordinates (zone width recomputed with an independent NL). Non-trivial = in-range case with the reference >= 1 NM from the truth, or any any-reference case; distinct by (counts, format, parity, reference bits).");
+    ctx.set_rule("in-range family: truth from the C04 strata, airborne/surface x even/odd, reference = truth moved along a random bearing by r*0.95*range (r uniform, r = 1 for 1/8), additionally within 0.95 half-zones per coordinate (else excluded, counted); oracle: position within 10 m, longitude modulo 360. any-reference family: arbitrary finite references (huge, denormal, zone edges, poles, antimeridian); oracle: absent, or latitude in [-90,90] and within half a zone of the reference in both coordinates (zone width recomputed with an independent NL). sequence family: the same report against an arbitrary reference, a report a whole number of latitude zones away (same latitude count) against its own near reference, the other parity of the same point, then the case itself, forwards and backwards on one thread, each judged by its own oracle. Carrier frames use every airborne / surface type code, any altitude / movement code and address. Non-trivial = in-range case with the reference >= 1 NM from the truth, or any any-reference case; distinct by (counts, format, parity, reference bits).");
     ctx.assume("independent CPR encoder; great-circle distances on a sphere R = 6371008.8 m");
     let n1 = ctx.tier.pick(1_000_000u32, 12_000_000u32);
     let n2 = ctx.tier.pick(500_000u32, 6_000_000u32);
+    let n3 = ctx.tier.pick(160_000u32, 2_000_000u32);
     let shards = 16u32;
     use rayon::prelude::*;
     (0..shards).into_par_iter().for_each(|s| {
@@ -204,10 +254,30 @@ pub fn run(ctx: &Ctx) {
             }
             check_any(ctx, c)
         });
+        run_prop(ctx, &format!("sequence-{s}"), n3 / shards, sequence_case(), |cs: &Vec<(Case, bool)>| {
+            ctx.class("sequence of related decodes on one thread");
+            check_sequence(ctx, cs)
+        });
     });
 }
 
+fn case_of(v: &Value) -> Case {
+    Case {
+        lat: v["lat"].as_f64().unwrap_or(0.0),
+        lon: v["lon"].as_f64().unwrap_or(0.0),
+        surface: v["surface"].as_bool().unwrap_or(false),
+        odd: v["odd"].as_bool().unwrap_or(false),
+        ref_lat: v["ref_lat"].as_f64().unwrap_or(0.0),
+        ref_lon: v["ref_lon"].as_f64().unwrap_or(0.0),
+    }
+}
+
 pub fn replay(ctx: &Ctx, v: &Value) {
+    if v["kind"] == "sequence" {
+        let cases: Vec<(Case, bool)> = v["cases"].as_array().map(|a| a.iter().map(|x| (case_of(x), x["kind"] == "any")).collect()).unwrap_or_default();
+        ctx.judge(check_sequence(ctx, &cases));
+        return;
+    }
     let c = Case {
         lat: v["lat"].as_f64().unwrap_or(0.0),
         lon: v["lon"].as_f64().unwrap_or(0.0),
